@@ -251,7 +251,8 @@ theorem readThreadList_enc (ms : MemSizes) {s all : Bytes} {e : Endian} {pad : B
 
 /-! ## memory lists -/
 
-def RegionFits (r : MRegion) : Prop := r.base < 2 ^ 64
+/-- a region of process memory: it lies inside the 64-bit address space (it may end exactly at 2^64) -/
+def RegionFits (r : MRegion) : Prop := r.base < 2 ^ 64 ∧ r.base + r.bytes.length ≤ 2 ^ 64
 
 theorem oobMemory_length (rs : List MRegion) : (oobMemory rs).length = oobMemorySize rs := by
   induction rs with
@@ -278,7 +279,7 @@ theorem memRecs_fits {all : List UInt8} (hall : all.length < 2 ^ 32) :
     cases hv with
     | inl h0 =>
       subst h0
-      have h1 : r.base < 2 ^ 64 := hf r (by simp)
+      have h1 : r.base < 2 ^ 64 := (hf r (by simp)).1
       simp only [MINIDUMP_MEMORY_DESCRIPTOR, Fits, pow_256_4, pow_256_8]
       refine ⟨h1, ?_, ?_, trivial⟩ <;> omega
     | inr h1 => exact ih _ (fun r' hr' => hf r' (by simp [hr'])) h.right v h1
@@ -359,7 +360,7 @@ theorem mem64Recs_fits {all : List UInt8} (hall : all.length < 2 ^ 32) :
     cases hv with
     | inl h0 =>
       subst h0
-      have h1 : r.base < 2 ^ 64 := hf r (by simp)
+      have h1 : r.base < 2 ^ 64 := (hf r (by simp)).1
       simp only [MINIDUMP_MEMORY_DESCRIPTOR64, Fits, pow_256_8]
       refine ⟨h1, ?_, trivial⟩; omega
     | inr h1 => exact ih _ (fun r' hr' => hf r' (by simp [hr'])) h.right v h1
